@@ -84,3 +84,48 @@ Proof.
   exact (let '(conj _ (conj C2 (conj _ (conj _ (conj _ (conj _ C7)))))) := tokenize_rec_c cfg rf cf ST PA d st a b st' H A0 AB BL HT in conj C2 C7).
 Qed.
 Print Assumptions C01_nested_tokenize_progress.
+
+(* ---- the block parser never raises (options.html off) -------------------------------------- *)
+From MD Require Import Model.Ruler Lemmas.NoRaise Gen.Rules Lemmas.PipelineSafe.
+
+(* For EVERY source, env and token list, and every configuration with options.html off that has the
+   paragraph rule and whose named terminator chains hold only silent-capable rules other than
+   `reference` (true of every Ruler-compiled configuration of the generated rule table):
+   ParserBlock.parse does not raise - no IndexError from a line-table read, none from an
+   unguarded src[...] read, no exception of any other kind the model can produce.  (It may still
+   be cut short by the model's fuel in inner scans - never by the line loop, see C20 - which is not
+   an exception.)  The proof carries a table invariant through all 11 rules: table lengths, marks
+   inside the source, a line feed at every end mark but the last line's, a non-blank at the logical
+   start of a non-empty line; block quote and list rewrites keep it and their restores give back
+   the ORIGINAL tables literally.  With options.html on the html_block rule's last body line
+   needs the column arithmetic of nested containers, which is not proved. *)
+Theorem C01_block_parse_never_raises :
+  forall cfg rf cf src env toks,
+    c_html cfg = false -> term_names_ok cfg -> mem_str nm_paragraph (c_rules cfg) = true ->
+    forall e, block_parse cfg rf cf src env toks <> Raise e.
+Proof. exact block_parse_no_raise. Qed.
+Print Assumptions C01_block_parse_never_raises.
+
+(* every rule, the nested tokenize at any depth and the rule loop return with the five line tables,
+   the source and lineMax exactly as they were *)
+Theorem C01_nested_tokenize_restores_tables :
+  forall cfg rf cf N, c_html cfg = false -> term_names_ok cfg -> mem_str nm_paragraph (c_rules cfg) = true ->
+  forall d, rec_n N (tokenize cfg rf cf d).
+Proof. exact tokenize_rec_n. Qed.
+Print Assumptions C01_nested_tokenize_restores_tables.
+
+Theorem C01_fresh_tables_invariant :
+  forall src env toks, RI (b_lineMax (state_init src env toks)) (state_init src env toks).
+Proof. exact state_init_RI. Qed.
+Print Assumptions C01_fresh_tables_invariant.
+
+Theorem C01_ruler_cfg_term_names_ok :
+  forall (rs : list (@rule str)) code mn html defs,
+    alts_ok2 rs = true -> term_names_ok (mkBCfg (compile_chain rs []) (compile_chain rs) code mn html defs).
+Proof. exact ruler_cfg_term_names_ok. Qed.
+Print Assumptions C01_ruler_cfg_term_names_ok.
+
+(* the hypotheses hold for the generated rule table *)
+Example C01_registry_alts_ok2 :
+  alts_ok2 (map (fun na => mkRule (fst na) true (fst na) (snd na)) block_registry) = true.
+Proof. vm_compute. reflexivity. Qed.
